@@ -269,4 +269,59 @@ def runExact (mz : Bool) (n : Nat) (a : Array (Array (Cx K))) : List Step → Op
 
 end exact
 
+/-! ## `_absorb_zeta`: where the residual phases of `rectangular_compact` are relocated -/
+
+inductive Slot | sigma | edge | out
+deriving Repr, DecidableEq
+
+/-- one update `target[mode, layer] ±= zetas[j]` (`out`: `phi_outs[0] = zetas[0]`) -/
+structure Upd where
+  slot : Slot
+  mode : Nat
+  layer : Nat
+  plus : Bool
+  j : Nat
+deriving Repr, DecidableEq
+
+/-- Python `range(a, b, 2)` -/
+def evens (a b : Nat) : List Nat := (List.range ((b - a + 1) / 2)).map fun k => a + 2 * k
+
+/-- body of the loop over `j` (`edgePlusOnEven`: the odd-`m` branch adds on even layers, the even-`m` branch on odd ones) -/
+def absorbFor (m j layer : Nat) (edgePlusOnEven : Bool) : List Upd :=
+  (evens j (m - 1)).map (fun mode => ⟨.sigma, mode, layer, true, j⟩) ++
+  (evens (j + 1) (m - 1)).map (fun mode => ⟨.sigma, mode, layer - 1, false, j⟩) ++
+  [if (layer % 2 == 0) == edgePlusOnEven then ⟨.edge, m - 1, layer, true, j⟩
+   else ⟨.edge, m - 1, layer - 1, false, j⟩]
+
+def absorbUpdates (m : Nat) : List Upd :=
+  if m % 2 = 0 then
+    ⟨.out, 0, 0, true, 0⟩ :: (List.range (m - 1)).flatMap fun t => absorbFor m (t + 1) (m - (t + 1)) false
+  else (List.range m).flatMap fun j => absorbFor m j (m - j - 1) true
+
+/-! ## `takagi`, real branch: order of the returned values and phases -/
+
+/-- `a` comes before `b` in `list_vals.sort(reverse=True)`: larger value first, then larger index -/
+def takagiBefore (a b : Int × Nat) : Bool := decide (b.1 < a.1 ∨ (b.1 = a.1 ∧ b.2 ≤ a.2))
+
+def takagiInsert (a : Int × Nat) : List (Int × Nat) → List (Int × Nat)
+  | [] => [a]
+  | b :: l => if takagiBefore a b then a :: b :: l else b :: takagiInsert a l
+
+def takagiSort : List (Int × Nat) → List (Int × Nat)
+  | [] => []
+  | a :: l => takagiInsert a (takagiSort l)
+
+/-- `list_vals = [(|l_i|, i)]; list_vals.sort(reverse=True)` (the pairs are distinct, so the result of the sort is
+determined by the order relation) -/
+def takagiOrder (l : List Int) : List (Int × Nat) :=
+  takagiSort ((l.map fun x => (x.natAbs : Int)).zipIdx)
+
+/-- square of the phase attached to eigenvalue `x` (`sqrt(1 if x > 0 else -1)`) -/
+def takagiPhaseSq (x : Int) : Int := if 0 < x then 1 else -1
+
+/-! ## `bloch_messiah`: the permutation that brings `s₁ ≥ … ≥ 1/s₁` into `(s₁ … s_n, 1/s₁ … 1/s_n)` -/
+
+/-- `perm = list(range(0, n)) + list(reversed(range(n, 2n)))` -/
+def bmPerm (n i : Nat) : Nat := if i < n then i else 3 * n - 1 - i
+
 end SFV.Decomp
